@@ -166,7 +166,10 @@ def time_course_residual(
     match val := res.value:
         case Simulation():
             return settings.loss(
-                val.get_combined().loc[:, cast(list, settings.data.columns)],
+                # Only the time points of the data, not the extra rows of the run
+                val.get_combined().loc[
+                    cast(list, settings.data.index), cast(list, settings.data.columns)
+                ],
             )
         case _:
             return cast(float, np.inf)
@@ -204,7 +207,10 @@ def protocol_time_course_residual(
     match val := res.value:
         case Simulation():
             return settings.loss(
-                val.get_combined().loc[:, cast(list, settings.data.columns)],
+                # Only the time points of the data, not the extra rows of the run
+                val.get_combined().loc[
+                    cast(list, settings.data.index), cast(list, settings.data.columns)
+                ],
             )
         case _:
             return cast(float, np.inf)
